@@ -34,4 +34,15 @@ pub proof fn lemma_words32_16(b: Seq<u8>) requires b.len() == 16
     assert(b.subrange(8, 12) =~= seq![b[8], b[9], b[10], b[11]]);
     assert(b.subrange(12, 16) =~= seq![b[12], b[13], b[14], b[15]]);
 }
+
+// C07 residue / C08: the xor128 step maps only the zero state to zero (so a seeded generator never reaches the all-zero state)
+pub proof fn lemma_xor128_zero_only_from_zero(s: Seq<u32>)
+    requires s.len() == 4, xor128_next(s) =~= seq![0u32, 0u32, 0u32, 0u32]
+    ensures s =~= seq![0u32, 0u32, 0u32, 0u32]
+{
+    let (x, y, z, w) = (s[0], s[1], s[2], s[3]);
+    let n = xor128_next(s);
+    assert(n[0] == 0 && n[1] == 0 && n[2] == 0 && n[3] == 0) by { let zz = seq![0u32, 0u32, 0u32, 0u32]; assert(zz[0] == 0 && zz[1] == 0 && zz[2] == 0 && zz[3] == 0); }
+    assert((y == 0u32 && z == 0u32 && w == 0u32 && ((w ^ (w >> 19u32)) ^ ((x ^ (x << 11u32)) ^ ((x ^ (x << 11u32)) >> 8u32))) == 0u32) ==> x == 0u32) by (bit_vector);
+}
 }
